@@ -92,7 +92,7 @@ class Ctx:
         return d
 
     def tlc(self, module, cfg=None, *, cwd=None, workers=None, timeout=600, simulate=None,
-            depth=None, dump=None, cont=False, deque=False, heap="6g", coverage=False,
+            depth=None, dump=None, cont=False, deque=False, heap="4g", coverage=False,
             label=None, seed=None, extra=(), must_pass=False, difftrace=False):
         """Run TLC on <module>.tla with <cfg> in directory cwd (default: spec copy)."""
         cwd = cwd or self.spec_copy()
@@ -291,12 +291,18 @@ coverage_re = re.compile(r'^<(\w+) line \d+, col \d+ to line \d+, col \d+ of mod
 
 # ---------------------------------------------------------------------- findings
 def load_findings(prop):
-    p = os.path.join(VERIF, "known-findings.json")
-    if not os.path.exists(p):
-        return []
-    with open(p) as f:
-        data = json.load(f)
-    return [x for x in data.get("findings", []) if x.get("property") == prop]
+    out = []
+    paths = [os.path.join(VERIF, "known-findings.json")]
+    dd = os.path.join(VERIF, "known-findings.d")
+    if os.path.isdir(dd):
+        paths += [os.path.join(dd, f) for f in sorted(os.listdir(dd)) if f.endswith(".json")]
+    for p in paths:
+        if not os.path.exists(p):
+            continue
+        with open(p) as f:
+            data = json.load(f)
+        out += [x for x in data.get("findings", []) if x.get("property") == prop]
+    return out
 
 
 def match_finding(findings, sig):
